@@ -63,8 +63,14 @@ fn gen_path(t: &mut Tape, paths: &[Vec<String>], labels: &mut BTreeSet<&'static 
             format!("{}<A, B>", base.join("::"))
         }
         _ => {
-            labels.insert("unknown_prefix_only");
-            base[..base.len() - 1].join("::")
+            if base.len() == 1 {
+                // a single-segment (prelude) path has no prefix: a namespaced look-alike instead
+                labels.insert("unknown_namespaced_prelude_name");
+                format!("somewhere::{}", base[0])
+            } else {
+                labels.insert("unknown_prefix_only");
+                base[..base.len() - 1].join("::")
+            }
         }
     }
 }
@@ -110,9 +116,22 @@ impl Property for C11 {
             return Ok(());
         };
         let reg: &PortableRegistry = &case.low.registry;
-        let paths = user_paths(reg);
+        let mut labels_prelude = false;
+        // every path of the registry, scale-info's single-segment prelude paths (Option, BTreeMap, Cow ...) included:
+        // they are registry paths like any other (subxt substitutes BTreeMap)
+        let mut paths = user_paths(reg);
+        for ty in &reg.types {
+            let p = &ty.ty.path.segments;
+            if p.len() == 1 && !paths.contains(p) {
+                paths.push(p.clone());
+                labels_prelude = true;
+            }
+        }
         let reg_paths: BTreeSet<Vec<String>> = reg.types.iter().map(|t| t.ty.path.segments.clone()).collect();
         let mut labels = BTreeSet::new();
+        if labels_prelude {
+            labels.insert("registry_has_prelude_paths");
+        }
 
         // registrations
         let n = t.weighted(&[1, 2, 3, 3, 2, 1]);
